@@ -7,4 +7,6 @@ git -C /repo apply "$patch" || exit 3
 cd /verif && ./check $pid --tier $tier 2>&1 | tail -6
 rc=${PIPESTATUS[0]}
 git -C /repo checkout -- .
+# evidence written while a seeded change was applied describes a broken tree: put the committed one back
+git -C /verif checkout -- evidence lean/ErbiumModel/Generated 2>/dev/null
 exit $rc
